@@ -16,15 +16,19 @@ fraction).
                          that `scipy.integrate.quad` returns the value of the integral is its contract, measured by
                          the correspondence check)
   * `pfNormLoadCode`   = `pf_norm_load(load_median, load_std, lower_limit, upper_limit)` AS THE CODE COMPUTES IT
-                         (repaired code, repo commits 2a91979 + 04bca38):
-                         the limits are standardised (`t = (log10 load − log10 load_median) / load_std`, default ±16, explicit ones
-                         clipped to ±16),
-                         `loc = s_50 − log10 load_median`; for `loc ≥ 0` the result is `quad(pdf(t) · cdf((sc·t − loc)/s_std))`,
-                         otherwise `cdf(upper) − cdf(lower) − quad(pdf(t) · sf((sc·t − loc)/s_std))`.  `quad` (the value
-                         scipy's adaptive quadrature is contracted to deliver), `Φ`, the survival function `Ψ` and the
-                         density `φ` are PARAMETERS: the proofs instantiate `quad` with the interval integral
-                         (`C15.pf_norm_load_code_eq_window_integral`, `C15.pf_norm_load_code_near_closed_form`), the driver
-                         with a composite 8-point Gauss–Legendre rule on the pieces the code's break points define.
+                         (repaired code, repo commits 2a91979 + 04bca38 + tools/fixes/C15-pf-norm-load-followup.diff):
+                         `load_std = 0` is a deterministic load (`pf_simple_load` if it lies within the limits, else 0);
+                         otherwise the limits are standardised (`t = (log10 load − log10 load_median) / load_std`, default
+                         ±16, explicit ones clipped to ±16), `loc = s_50 − log10 load_median`,
+                         `mass = cdf(upper) − cdf(lower)` (as `sf(lower) − sf(upper)` for a window above the load median),
+                         `direct = quad(pdf(t) · cdf((sc·t − loc)/s_std))`, `viaComplement = mass − quad(pdf(t) · sf(…))`.
+                         BRANCH RULE: with the default limits and `loc < 0` (pf > 1/2 by symmetry) `viaComplement`;
+                         otherwise `direct` if `direct ≤ mass/2`, else `viaComplement` - the smaller one of the two
+                         complementary probabilities is the one that is integrated, so neither loses its relative accuracy.
+                         `quad` (the value scipy's adaptive quadrature is contracted to deliver), `Φ`, the survival
+                         function `Ψ` and the density `φ` are PARAMETERS: the proofs instantiate `quad` with the interval
+                         integral (`C15.pf_norm_load_code_eq_window_integral`, `C15.pf_norm_load_code_near_closed_form`), the
+                         driver with a composite 8-point Gauss–Legendre rule on the pieces the code's break points define.
   * `pfArbitraryLoad`  = `pf_arbitrary_load(load_values, load_pdf)`: the composite trapezoidal rule of
                          `np.trapezoid(load_pdf * cdf_S(load_values), x = load_values)`.
 
@@ -65,15 +69,27 @@ def stdLimit (dflt : α) (loadMedian loadStd : α) : Option α → α
   | none => dflt
   | some l => clip16 ((l - Transc.log10 loadMedian) / loadStd)
 
+/-- `lower_limit ≤ x` / `x ≤ upper_limit` with `None` = no limit -/
+def withinLimits (x : α) (lower upper : Option α) : Bool :=
+  (match lower with | none => true | some l => decide (l ≤ x)) &&
+  (match upper with | none => true | some u => decide (x ≤ u))
+
 /-- `pf_norm_load(load_median, load_std, lower_limit, upper_limit)` as the code computes it; `quad f a b` stands for
-`scipy.integrate.quad(f, a, b, …)[0]`, `Ψ` for `norm.sf`, `φ` for `norm.pdf`. -/
+`scipy.integrate.quad(f, a, b, …)[0]`, `Ψ` for `norm.sf`, `φ` for `norm.pdf`.  (`load_std < 0` raises in the code and is
+outside the model's domain: here it takes the deterministic branch.) -/
 def pfNormLoadCode (Φ Ψ φ : α → α) (quad : (α → α) → α → α → α)
     (strengthMedian strengthStd loadMedian loadStd : α) (lower upper : Option α) : α :=
-  let lo := stdLimit (-16.0) loadMedian loadStd lower
-  let hi := stdLimit 16.0 loadMedian loadStd upper
-  let loc := Transc.log10 strengthMedian - Transc.log10 loadMedian
-  if loc ≥ 0.0 then quad (fun t => φ t * Φ ((loadStd * t - loc) / strengthStd)) lo hi
-  else Φ hi - Φ lo - quad (fun t => φ t * Ψ ((loadStd * t - loc) / strengthStd)) lo hi
+  if loadStd ≤ 0.0 then
+    (if withinLimits (Transc.log10 loadMedian) lower upper then pfSimpleLoad Φ strengthMedian strengthStd loadMedian else 0.0)
+  else
+    let lo := stdLimit (-16.0) loadMedian loadStd lower
+    let hi := stdLimit 16.0 loadMedian loadStd upper
+    let loc := Transc.log10 strengthMedian - Transc.log10 loadMedian
+    let mass := if lo > 0.0 then Ψ lo - Ψ hi else Φ hi - Φ lo
+    let direct := quad (fun t => φ t * Φ ((loadStd * t - loc) / strengthStd)) lo hi
+    let viaComplement := mass - quad (fun t => φ t * Ψ ((loadStd * t - loc) / strengthStd)) lo hi
+    if lower.isNone && upper.isNone && decide (loc < 0.0) then viaComplement
+    else if direct ≤ 0.5 * mass then direct else viaComplement
 
 /-- positive half of the 8-point Gauss–Legendre rule on [-1, 1]: (node, weight) -/
 def gl8 : List (α × α) :=
